@@ -37,14 +37,14 @@ var c11GreetingCaps = []string{"IMAP4rev1", "LITERAL+", "MOVE", "UIDPLUS"}
 func ovN(n uint64) string     { return fmt.Sprintf("ON %d", n) }
 func ovB(b []byte) string     { return "OB " + coqHx(b) }
 func ovS(s string) string     { return ovB([]byte(s)) }
-func ovL(it ...string) string { return "OL [" + strings.Join(parenAll(it), "; ") + "]" }
+func ovL(it ...string) string { return "OL [" + strings.Join(c11ParenAll(it), "; ") + "]" }
 func ovBool(b bool) string {
 	if b {
 		return "ON 1"
 	}
 	return "ON 0"
 }
-func parenAll(it []string) []string {
+func c11ParenAll(it []string) []string {
 	out := make([]string, len(it))
 	for i, s := range it {
 		out[i] = "(" + s + ")"
@@ -105,13 +105,13 @@ func (r *c11Result) violate(sig, what string) {
 }
 
 // watchConn tells when the client's reader has finished (it closes the connection itself).
-type watchConn struct {
+type c11WatchConn struct {
 	net.Conn
 	once   sync.Once
 	closed chan struct{}
 }
 
-func (w *watchConn) Close() error {
+func (w *c11WatchConn) Close() error {
 	w.once.Do(func() { close(w.closed) })
 	return w.Conn.Close()
 }
@@ -193,7 +193,7 @@ func c11ThreadSize(t imapclient.ThreadData) int {
 	return n
 }
 
-func setSize(ranges [][2]uint32) (size uint64, dynamic bool) {
+func c11SetSize(ranges [][2]uint32) (size uint64, dynamic bool) {
 	for _, r := range ranges {
 		if r[1] == 0 || r[0] == 0 {
 			return 0, true
@@ -203,14 +203,14 @@ func setSize(ranges [][2]uint32) (size uint64, dynamic bool) {
 	return size, false
 }
 
-func seqRanges(s imap.SeqSet) [][2]uint32 {
+func c11SeqRanges(s imap.SeqSet) [][2]uint32 {
 	var out [][2]uint32
 	for _, r := range s {
 		out = append(out, [2]uint32{r.Start, r.Stop})
 	}
 	return out
 }
-func uidRanges(s imap.UIDSet) [][2]uint32 {
+func c11UIDRanges(s imap.UIDSet) [][2]uint32 {
 	var out [][2]uint32
 	for _, r := range s {
 		out = append(out, [2]uint32{uint32(r.Start), uint32(r.Stop)})
@@ -238,7 +238,7 @@ func (r *c11Result) accOv(name string, ranges [][2]uint32, isKind bool, streamLe
 		r.accessor(name, func() { call() })
 		return ovL(ovN(1), ovL())
 	}
-	size, dyn := setSize(ranges)
+	size, dyn := c11SetSize(ranges)
 	if dyn {
 		r.violate("dynamic-set-delivered:"+name, "a dynamic number set was delivered to the caller")
 		if r.accessor(name, func() { call() }) {
@@ -266,7 +266,7 @@ func (r *c11Result) accOv(name string, ranges [][2]uint32, isKind bool, streamLe
 	return ovL(ovN(1), ovL(it...))
 }
 
-func flagsOv(fl []imap.Flag) string {
+func c11FlagsOv(fl []imap.Flag) string {
 	var it []string
 	for _, f := range fl {
 		it = append(it, ovS(string(f)))
@@ -274,7 +274,7 @@ func flagsOv(fl []imap.Flag) string {
 	return ovL(it...)
 }
 
-func isASCII7(s string) bool {
+func c11IsASCII7(s string) bool {
 	for i := 0; i < len(s); i++ {
 		if s[i] >= 0x80 {
 			return false
@@ -283,7 +283,7 @@ func isASCII7(s string) bool {
 	return true
 }
 
-func intsOv(l []int) string {
+func c11IntsOv(l []int) string {
 	var it []string
 	for _, n := range l {
 		it = append(it, ovN(uint64(n)))
@@ -332,8 +332,8 @@ func (r *c11Result) bodyOv(bs imap.BodyStructure) (string, int) {
 	}
 }
 
-func sectionOv(part []int, spec string, fields, fieldsNot []string, partial *imap.SectionPartial) string {
-	if !isASCII7(spec) {
+func c11SectionOv(part []int, spec string, fields, fieldsNot []string, partial *imap.SectionPartial) string {
+	if !c11IsASCII7(spec) {
 		spec = "?"
 	}
 	fl := fields
@@ -345,7 +345,7 @@ func sectionOv(part []int, spec string, fields, fieldsNot []string, partial *ima
 	if partial != nil {
 		origin = ovL(ovN(uint64(partial.Offset)))
 	}
-	return ovL(intsOv(part), ovS(spec), ovStrs(fl), ovBool(not), origin)
+	return ovL(c11IntsOv(part), ovS(spec), ovStrs(fl), ovBool(not), origin)
 }
 
 // collectMsg reads every item of a FETCH message in order.
@@ -362,7 +362,7 @@ func (r *c11Result) collectMsg(msg *imapclient.FetchMessageData) string {
 		r.Delivered++
 		switch it := item.(type) {
 		case imapclient.FetchItemDataFlags:
-			items = append(items, ovL(ovN(1), flagsOv(it.Flags)))
+			items = append(items, ovL(ovN(1), c11FlagsOv(it.Flags)))
 		case imapclient.FetchItemDataEnvelope:
 			var lists []string
 			if it.Envelope == nil {
@@ -401,14 +401,14 @@ func (r *c11Result) collectMsg(msg *imapclient.FetchMessageData) string {
 				content = ovL(ovB(b))
 			}
 			items = append(items, ovL(ovN(6), ovBool(false),
-				sectionOv(it.Section.Part, string(it.Section.Specifier), it.Section.HeaderFields, it.Section.HeaderFieldsNot, it.Section.Partial), content))
+				c11SectionOv(it.Section.Part, string(it.Section.Specifier), it.Section.HeaderFields, it.Section.HeaderFieldsNot, it.Section.Partial), content))
 		case imapclient.FetchItemDataBinarySection:
 			content := ovL()
 			if it.Literal != nil {
 				b, _ := io.ReadAll(it.Literal)
 				content = ovL(ovB(b))
 			}
-			items = append(items, ovL(ovN(6), ovBool(true), sectionOv(it.Section.Part, "", nil, nil, nil), content))
+			items = append(items, ovL(ovN(6), ovBool(true), c11SectionOv(it.Section.Part, "", nil, nil, nil), content))
 		case imapclient.FetchItemDataBodyStructure:
 			// measure first: rendering a structure nested 100000 deep would take the harness for ever
 			var s string
@@ -429,7 +429,7 @@ func (r *c11Result) collectMsg(msg *imapclient.FetchMessageData) string {
 			}
 			items = append(items, ovL(ovN(7), ovBool(it.IsExtended), s))
 		case imapclient.FetchItemDataBinarySectionSize:
-			items = append(items, ovL(ovN(8), intsOv(it.Part), ovN(uint64(it.Size))))
+			items = append(items, ovL(ovN(8), c11IntsOv(it.Part), ovN(uint64(it.Size))))
 		case imapclient.FetchItemDataModSeq:
 			items = append(items, ovL(ovN(9), ovN(it.ModSeq)))
 		default:
@@ -458,16 +458,16 @@ func (r *c11Result) threadOv(t imapclient.ThreadData, depth int) (string, int) {
 	return ovL(ovL(chain...), ovL(subs...)), max
 }
 
-func waitClass(err error) int { return statusOf(err) }
+func c11WaitClass(err error) int { return statusOf(err) }
 
-func numSetStr(s imap.NumSet) string {
+func c11NumSetStr(s imap.NumSet) string {
 	if s == nil {
 		return ""
 	}
 	return s.String()
 }
 
-func quotaOv(q *imapclient.QuotaData) string {
+func c11QuotaOv(q *imapclient.QuotaData) string {
 	var names []string
 	for k := range q.Resources {
 		names = append(names, string(k))
@@ -481,7 +481,7 @@ func quotaOv(q *imapclient.QuotaData) string {
 	return ovL(ovS(q.Root), ovL(it...))
 }
 
-func capsOv(c imap.CapSet) string {
+func c11CapsOv(c imap.CapSet) string {
 	var names []string
 	for k := range c {
 		names = append(names, string(k))
@@ -549,7 +549,7 @@ func c11Exec(k c11Cmd, stream []byte, timeout time.Duration, measure bool) *c11R
 	if err != nil {
 		panic(err)
 	}
-	wc := &watchConn{Conn: raw, closed: make(chan struct{})}
+	wc := &c11WatchConn{Conn: raw, closed: make(chan struct{})}
 
 	var mu sync.Mutex
 	opts := &imapclient.Options{UnilateralDataHandler: &imapclient.UnilateralDataHandler{
@@ -570,9 +570,9 @@ func c11Exec(k c11Cmd, stream []byte, timeout time.Duration, measure bool) *c11R
 			case d.NumMessages != nil:
 				res.Uni = append(res.Uni, ovL(ovN(2), ovN(uint64(*d.NumMessages))))
 			case d.PermanentFlags != nil:
-				res.Uni = append(res.Uni, ovL(ovN(4), flagsOv(d.PermanentFlags)))
+				res.Uni = append(res.Uni, ovL(ovN(4), c11FlagsOv(d.PermanentFlags)))
 			default:
-				res.Uni = append(res.Uni, ovL(ovN(3), flagsOv(d.Flags)))
+				res.Uni = append(res.Uni, ovL(ovN(3), c11FlagsOv(d.Flags)))
 			}
 		},
 		Fetch: func(msg *imapclient.FetchMessageData) {
@@ -652,12 +652,12 @@ func c11Exec(k c11Cmd, stream []byte, timeout time.Duration, measure bool) *c11R
 			var seqR, uidR [][2]uint32
 			switch a := d.All.(type) {
 			case imap.SeqSet:
-				allKind, allStr, seqR = 1, a.String(), seqRanges(a)
+				allKind, allStr, seqR = 1, a.String(), c11SeqRanges(a)
 				if len(a) > 0 {
 					local.Delivered++
 				}
 			case imap.UIDSet:
-				allKind, allStr, uidR = 2, a.String(), uidRanges(a)
+				allKind, allStr, uidR = 2, a.String(), c11UIDRanges(a)
 				if len(a) > 0 {
 					local.Delivered++
 				}
@@ -790,7 +790,7 @@ func c11Exec(k c11Cmd, stream []byte, timeout time.Duration, measure bool) *c11R
 			if d.List != nil {
 				lst = ovL(ovS(d.List.Mailbox))
 			}
-			data = ovL(ovN(uint64(d.NumMessages)), flagsOv(d.Flags), flagsOv(d.PermanentFlags), ovN(uint64(d.UIDNext)),
+			data = ovL(ovN(uint64(d.NumMessages)), c11FlagsOv(d.Flags), c11FlagsOv(d.PermanentFlags), ovN(uint64(d.UIDNext)),
 				ovN(uint64(d.UIDValidity)), ovN(d.HighestModSeq), lst)
 		case "Copy":
 			cmd := cl.Copy(imap.SeqSet{{Start: 1, Stop: 1}}, "x")
@@ -803,8 +803,8 @@ func c11Exec(k c11Cmd, stream []byte, timeout time.Duration, measure bool) *c11R
 			if len(d.SourceUIDs) > 0 {
 				local.Delivered++
 			}
-			local.accOv("CopyData.SourceUIDs.Nums", uidRanges(d.SourceUIDs), true, slen, func() []uint32 { n, _ := d.SourceUIDs.Nums(); return uidNums(n) })
-			local.accOv("CopyData.DestUIDs.Nums", uidRanges(d.DestUIDs), true, slen, func() []uint32 { n, _ := d.DestUIDs.Nums(); return uidNums(n) })
+			local.accOv("CopyData.SourceUIDs.Nums", c11UIDRanges(d.SourceUIDs), true, slen, func() []uint32 { n, _ := d.SourceUIDs.Nums(); return c11UIDNums(n) })
+			local.accOv("CopyData.DestUIDs.Nums", c11UIDRanges(d.DestUIDs), true, slen, func() []uint32 { n, _ := d.DestUIDs.Nums(); return c11UIDNums(n) })
 			data = ovL(ovN(uint64(d.UIDValidity)), ovS(d.SourceUIDs.String()), ovS(d.DestUIDs.String()))
 		case "Move":
 			cmd := cl.Move(imap.SeqSet{{Start: 1, Stop: 1}}, "x")
@@ -820,7 +820,7 @@ func c11Exec(k c11Cmd, stream []byte, timeout time.Duration, measure bool) *c11R
 				if d.SourceUIDs.Dynamic() || d.DestUIDs.Dynamic() {
 					local.violate("dynamic-set-delivered:COPYUID", "dynamic UID set delivered in MoveData")
 				}
-				data = ovL(ovN(uint64(d.UIDValidity)), ovS(numSetStr(d.SourceUIDs)), ovS(numSetStr(d.DestUIDs)))
+				data = ovL(ovN(uint64(d.UIDValidity)), ovS(c11NumSetStr(d.SourceUIDs)), ovS(c11NumSetStr(d.DestUIDs)))
 			}
 		case "Append":
 			cmd := cl.Append("INBOX", 1, nil)
@@ -842,7 +842,7 @@ func c11Exec(k c11Cmd, stream []byte, timeout time.Duration, measure bool) *c11R
 				data = ovL()
 			} else {
 				local.Delivered++
-				data = ovL(quotaOv(d))
+				data = ovL(c11QuotaOv(d))
 			}
 		case "GetQuotaRoot":
 			cmd := cl.GetQuotaRoot(k.Param)
@@ -852,7 +852,7 @@ func c11Exec(k c11Cmd, stream []byte, timeout time.Duration, measure bool) *c11R
 			var it []string
 			for i := range ds {
 				local.Delivered++
-				it = append(it, quotaOv(&ds[i]))
+				it = append(it, c11QuotaOv(&ds[i]))
 			}
 			data = ovL(it...)
 		case "GetMetadata":
@@ -909,7 +909,7 @@ func c11Exec(k c11Cmd, stream []byte, timeout time.Duration, measure bool) *c11R
 				data = ovL()
 			} else {
 				local.Delivered++
-				data = ovL(capsOv(c))
+				data = ovL(c11CapsOv(c))
 			}
 		case "Enable":
 			cmd := cl.Enable(imap.CapUTF8Accept)
@@ -920,7 +920,7 @@ func c11Exec(k c11Cmd, stream []byte, timeout time.Duration, measure bool) *c11R
 				data = ovL()
 			} else {
 				local.Delivered++
-				data = ovL(capsOv(d.Caps))
+				data = ovL(c11CapsOv(d.Caps))
 			}
 		default:
 			panic("unknown command kind " + k.Kind)
@@ -977,7 +977,7 @@ func c11Exec(k c11Cmd, stream []byte, timeout time.Duration, measure bool) *c11R
 	}
 	mu.Lock()
 	defer mu.Unlock()
-	res.Wait = waitClass(werr)
+	res.Wait = c11WaitClass(werr)
 	res.Data = data
 	res.Fetch = append(res.Fetch, local.Fetch...)
 	res.Delivered += local.Delivered
@@ -999,11 +999,11 @@ func c11Exec(k c11Cmd, stream []byte, timeout time.Duration, measure bool) *c11R
 	for i := 0; i < 60 && caps == nil; i++ {
 		caps = cl.Caps()
 	}
-	res.Caps = capsOv(caps)
+	res.Caps = c11CapsOv(caps)
 	return res
 }
 
-func uidNums(l []imap.UID) []uint32 {
+func c11UIDNums(l []imap.UID) []uint32 {
 	out := make([]uint32, len(l))
 	for i, u := range l {
 		out[i] = uint32(u)
@@ -1026,7 +1026,7 @@ func c11FirstLine(s string) string {
 func (r *c11Result) coqObs() string {
 	fetch := append([]string(nil), r.Fetch...)
 	sort.Strings(fetch)
-	return fmt.Sprintf("mkObs %d %d (%s) %s (%s) (%s)", r.Close, r.Wait, ovL(r.Uni...), coqList(parenAll(fetch)), r.Caps, r.Data)
+	return fmt.Sprintf("mkObs %d %d (%s) %s (%s) (%s)", r.Close, r.Wait, ovL(r.Uni...), coqList(c11ParenAll(fetch)), r.Caps, r.Data)
 }
 
 func c11CoqCase(k c11Cmd, stream []byte, r *c11Result) string {
@@ -1109,7 +1109,7 @@ func runC11(h *H) {
 	// running (8 workers) on disk so that the crash can be attributed
 	var ring []map[string]interface{}
 	for i := range cases {
-		ring = append(ring, map[string]interface{}{"index": i, "cmd": cases[i].cmd.Kind, "param": cases[i].cmd.Param, "origin": cases[i].origin, "stream": fmt.Sprintf("%q", trunc(cases[i].stream, 600))})
+		ring = append(ring, map[string]interface{}{"index": i, "cmd": cases[i].cmd.Kind, "param": cases[i].cmd.Param, "origin": cases[i].origin, "stream": fmt.Sprintf("%q", c11Trunc(cases[i].stream, 600))})
 		if len(ring) > workers+2 {
 			ring = ring[1:]
 		}
@@ -1162,7 +1162,7 @@ func c11OriginFamily(origin string) string {
 	return strings.SplitN(origin, "#", 2)[0]
 }
 
-func trunc(b []byte, n int) []byte {
+func c11Trunc(b []byte, n int) []byte {
 	if len(b) > n {
 		return b[:n]
 	}
@@ -1187,7 +1187,7 @@ func c11LibraryFacts(h *H) {
 			}
 		}
 	}
-	if strings.ToUpper("a\xffb") == "A\xffB" || isASCII7(strings.ToUpper("\xff")) {
+	if strings.ToUpper("a\xffb") == "A\xffB" || c11IsASCII7(strings.ToUpper("\xff")) {
 		h.Fail("library-fact:ToUpper", "strings.ToUpper keeps or maps invalid UTF-8 to ASCII", nil)
 	}
 	h.Eval("")
